@@ -114,9 +114,25 @@ func bodyReader(untypedBody any) (func() (io.Reader, error), error) {
 		}, nil
 
 	case io.ReadSeeker:
+		// Attempts can overlap, ex: with hedges, so each attempt needs its own read position
+		if readerAt, ok := untypedBody.(io.ReaderAt); ok {
+			size, err := body.Seek(0, io.SeekEnd)
+			if err != nil {
+				return nil, err
+			}
+			return func() (io.Reader, error) {
+				return io.NewSectionReader(readerAt, 0, size), nil
+			}, nil
+		}
+		if _, err := body.Seek(0, io.SeekStart); err != nil {
+			return nil, err
+		}
+		buf, err := io.ReadAll(body)
+		if err != nil {
+			return nil, err
+		}
 		return func() (io.Reader, error) {
-			_, err := body.Seek(0, 0)
-			return io.NopCloser(body), err
+			return bytes.NewReader(buf), nil
 		}, nil
 
 	case io.Reader:
